@@ -26,4 +26,7 @@ def run(P, R, L):
     K.agr2_codec_pairs(P, R, L, groups=("log",))
     R.clause("ORD-22", "the writer's block offset advances only after the bytes were written (a failed write leaves the writer consistent with the file)")
     K.ord22_writer_offset_after_the_write(P, R, L)
+    from . import blind
+    R.clause("ORD-23", "a completely read log fragment is counted in the reader's cursor and block offset before it is parsed: a fragment that fails its checksum costs that record, not the reader's alignment")
+    R.once(blind.ord23_reader_position_follows_the_file, P, R, L)
     R.not_decided += ["block-boundary arithmetic beyond the guards above: fragment sizes, trailer padding width, offset bookkeeping after each emit (value level)"]
